@@ -3,7 +3,7 @@
    plus dynamic detection (suite c20, Go race detector).  The property is REFUTED for the object
    fields (the default managers publish pointers that handlers mutate) and holds for the maps.
    Statements only; proofs in Proofs/C20Proofs.v, model in Model/Access.v. *)
-From Verif Require Import Base Scope Types Prog Pop Token Authorize System Config Access AccessOwn C20Proofs C20OwnProofs Race.
+From Verif Require Import Base Scope Types Prog Pop Token Authorize System Config Access AccessOwn C20Proofs C20OwnProofs C20OwnGeneral Race.
 Local Open Scope N_scope.
 
 (* Every access a handler program performs (any program over the storage calls, any store, any
@@ -78,6 +78,26 @@ Print Assumptions own_object_races_characterised.
 Theorem trace_own_without_copies : forall has A (p : prog A) s, trace_own has nothing_copied [] p s = trace has p s.
 Proof. intros. apply trace_own_nothing. Qed.
 Print Assumptions trace_own_without_copies.
+
+(* first_request_scalars_private - for EVERY world (profile, options, static clients), request (with or without
+   request_uri, any policy verdict), clock, set of jwks_uri clients and store in which the id a new session would get
+   is not yet taken (ids are minted per operation: Proofs/Fresh.v): the first request of an authorization
+   (GET/POST /authorize, Authorize.init_auth) performs NO unsynchronised write to a scalar member of a stored
+   session.  It works on a new session (stored only by its final Save) or on a copy of the pushed one; the only
+   members of shared memory it writes outside a lock are the maps the shallow copy shares (K20a, below). *)
+Theorem first_request_scalars_private : forall has w n now r st,
+  (forall x, In x (st_asess st) -> a_id x <> mint n KSessId) ->
+  scalar_session_writes (trace_own has par_copied [] (init_auth w n now r) st) = [].
+Proof. intros. apply first_request_scalars_private_lemma. apply not_stored_of_fresh. assumption. Qed.
+Print Assumptions first_request_scalars_private.
+
+(* the hypothesis is satisfiable and the conclusion not vacuous: the FAPI 2.0 scenario below - the id of request 1
+   is free in the store the push left, the request does write shared memory (the nonce claim map) *)
+Example first_request_applies :
+  let su := setup_of (own_scn PFapi2 "code" own_ok) in
+  stored (mint (su_base su) KSessId) (su_store su) = false /\
+  session_writes (own_trace par_copied (own_scn PFapi2 "code" own_ok)) <> [].
+Proof. vm_compute. split; [reflexivity|discriminate]. Qed.
 
 (* pushed_session_scalars_private: the FIRST request of an authorization that presents a pushed request_uri
    (internal/authorize.initAuth -> authnSessionWithPAR, which continues with a copy of the stored session),
